@@ -64,7 +64,8 @@ CLAIMED.update({
         text="The deferral machine is finite: TLC visits its complete graph and every transition is replayed on the real machine "
              "(complete projection), so the machine-level claims hold for all event sequences over 3 peers x 2-3 families; the table "
              "half (nothing announced while deferring, everything once at the end) is model-checked in Rib.tla and replayed.",
-        note="Trusted: TLC, the projection in harness/daemon/gr.rs; the table half is sampled conformance (see C06)."),
+        note="Trusted: TLC, the projection in harness/daemon/gr.rs; the table half and the driver glue (Global.selection_deferral, "
+             "process_restarting_outputs, run()'s tail, the expiry handler) are sampled conformance over feasible event sequences."),
 })
 
 CLAIMED.update({
